@@ -86,6 +86,8 @@ type Op struct {
 	RW        int     `json:"rw,omitempty"`
 	Bad       string  `json:"bad,omitempty"`    // putBad: id0 | badver | incompat
 	Stores    []int   `json:"stores,omitempty"` // place: picks of the peers' stores
+	Roles     []int   `json:"roles,omitempty"`  // place: role of each peer (metapb.PeerRole: 0 voter, 1 learner, 2 incoming voter, 3 demoting voter)
+	Role      int     `json:"role,omitempty"`   // role: the new role of the picked peer
 	N         int     `json:"n,omitempty"`      // fail: which write of the next storage-writing op fails
 }
 
@@ -144,6 +146,7 @@ var kinds = []string{
 	"rmTomb", "rmTomb",
 	"place", "place", "place",
 	"drop", "drop", "drop",
+	"role", "role", "role", "role",
 	"hb", "hb",
 	"restart", "restart", "restart",
 	"fail", "fail", "fail",
@@ -197,13 +200,32 @@ func genCase(t *rapid.T) Case {
 			// documented for the merge, so forced updates carry non-empty values only
 			op.Labels = genLabels(t, c.Strict, !op.Force)
 		case "place":
-			op.Want = genWant(t, "live", "live", "off", "off", "tomb")
-			k := rapid.IntRange(1, 3).Draw(t, "npeers")
+			op.Want = genWant(t, "live", "off", "off", "off", "tomb")
+			k := rapid.IntRange(1, 4).Draw(t, "npeers")
+			if k == 4 {
+				k = 2
+			}
 			for j := 0; j < k; j++ {
 				op.Stores = append(op.Stores, rapid.IntRange(0, 15).Draw(t, "peerStore"))
+				roles := []int{0, 0, 0, 0, 0, 0, 0, 1, 2, 3}
+				if j == 0 {
+					// the addressed (often offline) store frequently holds a learner only (TiFlash-like)
+					roles = []int{0, 0, 0, 0, 1, 1, 1, 1, 2, 3}
+				}
+				op.Roles = append(op.Roles, rapid.SampledFrom(roles).Draw(t, "peerRole"))
+			}
+			if op.Roles[0] == 1 && k == 1 {
+				// a learner needs a voter elsewhere
+				op.Stores = append(op.Stores, rapid.IntRange(0, 15).Draw(t, "peerStore"))
+				op.Roles = append(op.Roles, 0)
 			}
 		case "drop":
 			op.Want = genWant(t, "off", "off", "")
+		case "role":
+			// promote / demote step on a peer, preferably the one on an offline store
+			op.Want = genWant(t, "off", "off", "off", "")
+			op.Pick2 = rapid.IntRange(0, 15).Draw(t, "pick2")
+			op.Role = rapid.SampledFrom([]int{1, 1, 1, 1, 0, 0, 2, 3}).Draw(t, "newRole")
 		case "hb":
 			op.Want = genWant(t, "live", "off")
 		case "fail":
@@ -266,8 +288,61 @@ func (s *mstore) clone() *mstore {
 func (s *mstore) live() bool { return s.state != stTombstone && !s.destroyed }
 
 type mregion struct {
-	id     uint64
-	stores []uint64
+	id      uint64
+	stores  []uint64 // one peer per entry
+	roles   []int    // metapb.PeerRole of each peer
+	leader  int      // index of the leader peer (never a learner)
+	confVer uint64
+}
+
+// meta builds the region as its leader reports it.
+func (r *mregion) meta() *metapb.Region {
+	meta := &metapb.Region{Id: r.id, StartKey: []byte(fmt.Sprintf("k%08d", r.id)), EndKey: []byte(fmt.Sprintf("k%08d", r.id+1)),
+		RegionEpoch: &metapb.RegionEpoch{Version: 1, ConfVer: r.confVer}}
+	for j, s := range r.stores {
+		role := 0
+		if j < len(r.roles) {
+			role = r.roles[j]
+		}
+		meta.Peers = append(meta.Peers, &metapb.Peer{Id: r.id*10 + uint64(j) + 100000, StoreId: s, Role: metapb.PeerRole(role)})
+	}
+	return meta
+}
+
+func (r *mregion) info() *core.RegionInfo {
+	meta := r.meta()
+	return core.NewRegionInfo(meta, meta.Peers[r.leader], core.SetApproximateSize(10))
+}
+
+// learnerOnly: the store holds peers and every one of them is a learner.
+func (m *model) learnerOnly(id uint64) bool {
+	n := 0
+	for _, r := range m.regions {
+		for j, s := range r.stores {
+			if s != id {
+				continue
+			}
+			n++
+			if j >= len(r.roles) || r.roles[j] != 1 {
+				return false
+			}
+		}
+	}
+	return n > 0
+}
+
+// cachePeers counts the peers on a store in the region cache by walking the regions
+// (independent of the per-store counters and sub-trees the code under test maintains).
+func cachePeers(bc *core.BasicCluster, id uint64) int {
+	n := 0
+	for _, r := range bc.GetRegions() {
+		for _, p := range r.GetPeers() {
+			if p.GetStoreId() == id {
+				n++
+			}
+		}
+	}
+	return n
 }
 
 type model struct {
@@ -730,7 +805,7 @@ func runHistory(c Case, spinners int) (vkit.Info, error) {
 			continue
 		}
 		at := fmt.Sprintf("op %d %s", i, op.Kind)
-		if op.Kind == "place" || op.Kind == "drop" {
+		if op.Kind == "place" || op.Kind == "drop" || op.Kind == "role" {
 			afterRestart = false // region traffic refreshes counters
 		}
 		switch op.Kind {
@@ -755,16 +830,33 @@ func runHistory(c Case, spinners int) (vkit.Info, error) {
 			}
 			rid := m.nextReg
 			m.nextReg++
-			meta := &metapb.Region{Id: rid, StartKey: []byte(fmt.Sprintf("k%08d", rid)), EndKey: []byte(fmt.Sprintf("k%08d", rid+1)),
-				RegionEpoch: &metapb.RegionEpoch{Version: 1, ConfVer: 1}}
-			for j, s := range stores {
-				meta.Peers = append(meta.Peers, &metapb.Peer{Id: rid*10 + uint64(j) + 100000, StoreId: s})
+			mr := &mregion{id: rid, stores: stores, confVer: 1, leader: -1}
+			for j := range stores {
+				role := 0
+				if j < len(op.Roles) {
+					role = op.Roles[j] % 4
+				}
+				mr.roles = append(mr.roles, role)
+			}
+			// a region is reported by its leader, and a learner is never the leader: at least one
+			// peer (the last one) is a voter
+			for j, role := range mr.roles {
+				if role != 1 && mr.leader < 0 {
+					mr.leader = j
+				}
+			}
+			if mr.leader < 0 {
+				mr.leader = len(mr.roles) - 1
+				mr.roles[mr.leader] = 0
 			}
 			// the real path of a region heartbeat: cache, per-store counters and storage
-			if err := rc.VerifProcessRegionHeartbeat(newRegion(meta)); err != nil {
+			if err := rc.VerifProcessRegionHeartbeat(mr.info()); err != nil {
 				return info, fmt.Errorf("%s: harness: heartbeat of new region %d refused: %v", at, rid, err)
 			}
-			m.regions = append(m.regions, &mregion{id: rid, stores: stores})
+			m.regions = append(m.regions, mr)
+			if mr.roles[0] == 1 {
+				info.Class("learner-peer-placed")
+			}
 			for _, s := range stores {
 				m.cached[s] = m.regionCount(s)
 			}
@@ -773,8 +865,76 @@ func runHistory(c Case, spinners int) (vkit.Info, error) {
 				info.Class("region-on-tombstone")
 			}
 			for _, s := range stores {
-				if got := f.bc.GetStoreRegionCount(s); got != m.regionCount(s) {
-					return info, fmt.Errorf("%s: harness: region count of store %d is %d, model %d", at, s, got, m.regionCount(s))
+				if got := cachePeers(f.bc, s); got != m.regionCount(s) {
+					return info, fmt.Errorf("%s: harness: store %d has %d peers in the region cache, model %d", at, s, got, m.regionCount(s))
+				}
+			}
+			continue
+		case "role":
+			if len(m.regions) == 0 {
+				continue
+			}
+			// a region with a peer on a store in the wanted state, and that peer
+			idx, pj := op.Pick%len(m.regions), -1
+			if op.Want != "" {
+				var cand [][2]int
+				for k, r := range m.regions {
+					for j, s := range r.stores {
+						if m.stores[s] != nil && matches(m.stores[s], op.Want) {
+							cand = append(cand, [2]int{k, j})
+						}
+					}
+				}
+				if len(cand) > 0 {
+					c := cand[op.Pick%len(cand)]
+					idx, pj = c[0], c[1]
+				}
+			}
+			r := m.regions[idx]
+			if pj < 0 {
+				pj = op.Pick2 % len(r.stores)
+			}
+			newRole := op.Role % 4
+			if newRole == r.roles[pj] {
+				newRole = 1
+				if r.roles[pj] == 1 {
+					newRole = 0
+				}
+			}
+			if newRole == 1 {
+				// demote: another peer must be able to lead
+				other := -1
+				for j, role := range r.roles {
+					if j != pj && role != 1 {
+						other = j
+						break
+					}
+				}
+				if other < 0 {
+					continue // the only voter of a region is never demoted
+				}
+				if r.leader == pj {
+					r.leader = other
+				}
+				info.Class("peer-demoted-to-learner")
+				if m.stores[r.stores[pj]] != nil && m.stores[r.stores[pj]].state == stOffline {
+					info.Class("peer-on-offline-store-demoted-to-learner")
+				}
+			} else if r.roles[pj] == 1 {
+				info.Class("learner-promoted")
+			}
+			r.roles[pj] = newRole
+			r.confVer++
+			// a conf change is reported by the next heartbeat of the region with a bumped conf_ver
+			if err := rc.VerifProcessRegionHeartbeat(r.info()); err != nil {
+				return info, fmt.Errorf("%s: harness: heartbeat of region %d (conf_ver %d) refused: %v", at, r.id, r.confVer, err)
+			}
+			for _, s := range r.stores {
+				if m.stores[s] != nil {
+					m.cached[s] = m.regionCount(s)
+				}
+				if got := cachePeers(f.bc, s); got != m.regionCount(s) {
+					return info, fmt.Errorf("%s: harness: store %d has %d peers in the region cache, model %d", at, s, got, m.regionCount(s))
 				}
 			}
 			continue
@@ -834,7 +994,7 @@ func runHistory(c Case, spinners int) (vkit.Info, error) {
 				if s.state == stTombstone {
 					m.residue[id] = true // LoadClusterInfo creates a statistics entry for every loaded store
 				}
-				if got := f.bc.GetStoreRegionCount(id); got != m.regionCount(id) {
+				if got := cachePeers(f.bc, id); got != m.regionCount(id) {
 					return info, fmt.Errorf("%s: harness: after the reload store %d has %d region peers in the cache, model %d", at, id, got, m.regionCount(id))
 				}
 				offlineWithPeers = offlineWithPeers || (s.state == stOffline && m.regionCount(id) > 0)
@@ -1054,6 +1214,9 @@ func runHistory(c Case, spinners int) (vkit.Info, error) {
 						cands = append(cands, id)
 					} else {
 						info.Class("bury-blocked-by-region")
+						if m.learnerOnly(id) {
+							info.Class("learner-only-at-tick")
+						}
 						if justRestarted {
 							info.Class("check-right-after-restart-offline-store-holds-peers")
 						}
